@@ -5,7 +5,29 @@
 use aranya_runtime::Prior;
 use vh::{fnv, gk::*, gkb::*, Args, Recorder, Rng};
 
-fn run_case(rec: &mut Recorder, rng: &mut Rng, sched: &Schedule, label: &str) {
+/// does the reference model accept `c` on top of the commands `sim` (parents known, rule accepts at
+/// origin, merge parents braid without parallel finalizes)?
+fn predict_accept(sim: &[KCmd], c: &KCmd) -> bool {
+    let og = oracle::OGraph::new(sim);
+    if og.cmds.contains_key(&c.id) {
+        return false;
+    }
+    match c.parent {
+        Prior::None => sim.is_empty(),
+        Prior::Single(p) => match og.states.get(&p.id) {
+            Some(Ok(st)) => {
+                let mut st = st.clone();
+                oracle::rule(c, &mut st)
+            }
+            _ => false,
+        },
+        Prior::Merge(l, r) => {
+            og.cmds.contains_key(&l.id) && og.cmds.contains_key(&r.id) && !og.is_anc(l.id, r.id) && !og.is_anc(r.id, l.id) && og.braid(&[l.id, r.id]).is_ok()
+        }
+    }
+}
+
+fn run_case(rec: &mut Recorder, rng: &mut Rng, sched: &Schedule, multi_add: bool, label: &str) {
     let cmds = flatten(sched);
     let cmds = &cmds[..];
     let g = graph_id_of(&cmds[0]);
@@ -17,7 +39,79 @@ fn run_case(rec: &mut Recorder, rng: &mut Rng, sched: &Schedule, label: &str) {
     for batch in sched {
         let mut trx = r.transaction();
         let mut mark = accepted.len();
-        for c in batch {
+        // Deliver the batch in `add_commands` calls of 1..4 commands.  A call with several commands is
+        // only made for commands the reference model accepts (so the outcome per command is known);
+        // a command the reference rejects, a merge and the init command end their call.
+        let mut i = 0;
+        while i < batch.len() {
+            let want = if multi_add && cmds.len() <= 100 { rng.range(1, 4) as usize } else { 1 };
+            let mut chunk: Vec<KCmd> = vec![];
+            if want > 1 {
+                let mut sim = accepted.clone();
+                while i < batch.len() && chunk.len() < want {
+                    let c = &batch[i];
+                    if !predict_accept(&sim, c) {
+                        if chunk.is_empty() {
+                            chunk.push(c.clone());
+                            i += 1;
+                        }
+                        break;
+                    }
+                    chunk.push(c.clone());
+                    sim.push(c.clone());
+                    i += 1;
+                    if !matches!(c.parent, Prior::Single(_)) {
+                        break;
+                    }
+                }
+            } else {
+                chunk.push(batch[i].clone());
+                i += 1;
+            }
+            if chunk.len() > 1 {
+                rec.count("multi_command_add_calls");
+                let _ = audit_take();
+                let res = r.add(&mut trx, &chunk);
+                let evs = audit_take();
+                match res {
+                    Ok(n) => {
+                        if n != chunk.len() {
+                            rec.oracle_fail(format!("{label}: add_commands of {} commands accepted by the reference added {n}", chunk.len()));
+                        }
+                        for c in &chunk {
+                            rec.line(cmd_line(c), "ok");
+                            accepted.push(c.clone());
+                        }
+                        if let Some(c) = chunk.last() {
+                            if let Prior::Merge(l, rr) = c.parent {
+                                merges += 1;
+                                let order = braid_calls(&evs);
+                                rec.line(format!("braidorder {}", ids_arg(&[l.id, rr.id])), show_ids(&order));
+                                let og = oracle::OGraph::new(&accepted);
+                                match og.braid(&[l.id, rr.id]) {
+                                    Ok((_s, o)) => {
+                                        if o != order {
+                                            rec.oracle_fail(format!("{label}: merge {} braid order {} but reference braid {}", short(c.id), show_ids(&order), show_ids(&o)));
+                                        }
+                                    }
+                                    Err(e) => rec.oracle_fail(format!("{label}: merge accepted but reference says {e}")),
+                                }
+                            }
+                        }
+                    }
+                    Err(e) => {
+                        rec.oracle_fail(format!(
+                            "{label}: add_commands([{}]) failed with {} although the reference accepts every command of the call",
+                            chunk.iter().map(|c| short(c.id)).collect::<Vec<_>>().join(","),
+                            err_name(&e)
+                        ));
+                        // what was added is unknown: stop this case
+                        return;
+                    }
+                }
+                continue;
+            }
+            let c = &chunk[0];
             let _ = audit_take();
             let res = r.add(&mut trx, std::slice::from_ref(c));
             let evs = audit_take();
@@ -107,7 +201,9 @@ fn run_case(rec: &mut Recorder, rng: &mut Rng, sched: &Schedule, label: &str) {
     let og = oracle::OGraph::new(&accepted);
     for c in &committed {
         let bigg = committed.len() > 100;
-        let pick = if matches!(c.parent, Prior::Merge(..)) { !bigg || rng.chance(1, 16) } else { rng.chance(1, if bigg { 64 } else { 4 }) };
+        // every committed command (mid-segment fact perspectives included); sampled only for the
+        // spill-sized graphs (the Lean driver recomputes all states per request)
+        let pick = if !bigg { true } else if matches!(c.parent, Prior::Merge(..)) { rng.chance(1, 16) } else { rng.chance(1, 64) };
         if pick {
             let real = r.facts_at(c.address()).map(|f| show_facts(&f)).unwrap_or_else(|e| format!("err {e}"));
             rec.line(format!("state {}", id_hex(c.id)), real.clone());
@@ -126,11 +222,15 @@ fn run_case(rec: &mut Recorder, rng: &mut Rng, sched: &Schedule, label: &str) {
     }
 }
 
-fn guarded(rec: &mut Recorder, rng: &mut Rng, sched: &Schedule, label: &str, case: usize) {
+fn guarded(rec: &mut Recorder, rng: &mut Rng, sched: &Schedule, multi_add: bool, label: &str, case: usize) {
     let mut crng = rng.fork();
-    match vh::catch(std::panic::AssertUnwindSafe(|| run_case(rec, &mut crng, sched, label))) {
+    match vh::catch(std::panic::AssertUnwindSafe(|| run_case(rec, &mut crng, sched, multi_add, label))) {
         Ok(()) => {}
-        Err(p) => rec.panics.push(format!("case {case}: {p}")),
+        Err(p) => {
+            // keep the request lines of the case: the panic is replayable
+            rec.oracle_fail(format!("case {case}: panic in the real code: {p}"));
+            rec.panics.push(format!("case {case}: {p}"));
+        }
     }
 }
 
@@ -152,7 +252,12 @@ fn main() {
             }
             for sc in &scheds {
                 rec.begin_case();
-                guarded(&mut rec, &mut rng, sc, &format!("replay{k}"), k);
+                for multi in [false, true] {
+                    guarded(&mut rec, &mut rng, sc, multi, &format!("replay{k}"), k);
+                    if multi == false {
+                        rec.begin_case();
+                    }
+                }
             }
         }
         rec.finish(args.seed, &args.tier);
@@ -177,7 +282,7 @@ fn main() {
         rec.begin_case();
         // (F1 is repaired: rejected commands no longer poison a transaction, so bodies with
         // state-dependent checks are delivered in batches too)
-        let per_cmd = rng.chance(1, 3);
+        let per_cmd = rng.chance(1, 4);
         rec.count(if per_cmd { "mode:per-command-trx" } else { "mode:batched-trx" });
         if rec.cases() <= 2 {
             rec.sample(cmds.iter().map(cmd_line).collect::<Vec<_>>().join(" | "));
@@ -185,12 +290,15 @@ fn main() {
         // the same DAG under different batchings: segment boundaries / skip lists differ
         let mb = *rng.pick(&[6, 6, 3, 20]);
         let sched = make_schedule(&mut rng, &cmds, per_cmd, mb, false);
-        guarded(&mut rec, &mut rng, &sched, "c03", case);
+        // several commands per add_commands call in most batched cases
+        let multi_add = !per_cmd && rng.chance(3, 4);
+        rec.count(if multi_add { "add:multi-command-calls" } else { "add:one-command-calls" });
+        guarded(&mut rec, &mut rng, &sched, multi_add, "c03", case);
         if !per_cmd && rng.chance(1, 4) {
             rec.begin_case();
             rec.count("mode:rebatched-same-dag");
             let sched2 = make_schedule(&mut rng, &cmds, false, 12, false);
-            guarded(&mut rec, &mut rng, &sched2, "c03", case);
+            guarded(&mut rec, &mut rng, &sched2, true, "c03", case);
         }
     }
     // a few spill-sized graphs (sparse log fact; stored state checked at the merges that are sampled)
@@ -203,7 +311,7 @@ fn main() {
             rec.begin_case();
             rec.count(&format!("shape:{name}"));
             let sched = make_schedule(&mut rng, &cmds, false, (cmds.len() as u64 / 5).max(8), false);
-            guarded(&mut rec, &mut rng, &sched, "c03-big", 100_000);
+            guarded(&mut rec, &mut rng, &sched, false, "c03-big", 100_000);
         }
     }
     rec.finish(args.seed, &args.tier);
